@@ -56,18 +56,6 @@ Proof. unfold patch_function. destruct (mprotect_span allp a (zlen bs)) as [pa p
 Lemma do_mmap_mem k s h l : o_mem (fst (do_mmap k s h l)) = o_mem s. Proof. reflexivity. Qed.
 Lemma do_munmap_mem s a l : o_mem (do_munmap s a l) = o_mem s. Proof. reflexivity. Qed.
 
-Lemma alloc_loop_mem strict k fuel : forall s start src size, o_mem (fst (alloc_loop strict k fuel s start src size)) = o_mem s.
-Proof. induction fuel as [|fuel IH]; intros s start src size; cbn [alloc_loop]; auto.
-  destruct (start <=? src + RANGE); auto.
-  destruct (do_mmap k s start size) as [s1 [a|]] eqn:E.
-  - destruct (if strict then _ else _).
-    + cbn. change s1 with (fst (s1, Some a)). rewrite <- E. apply do_mmap_mem.
-    + rewrite IH. rewrite do_munmap_mem. change s1 with (fst (s1, Some a)). rewrite <- E. apply do_mmap_mem.
-  - rewrite IH. change s1 with (fst (s1, @None Z)). rewrite <- E. apply do_mmap_mem. Qed.
-Lemma alloc_jit_mem strict k s src size : o_mem (fst (alloc_jit strict k s src size)) = o_mem s.
-Proof. unfold alloc_jit. pose proof (alloc_loop_mem strict k ALLOC_FUEL s (Z.max 0 (src - RANGE)) src size) as H.
-  destruct (alloc_loop _ _ _ _ _ _ _) as [s' []]; exact H. Qed.
-
 (* ---- the allocation loop against an arbitrary kernel (C11) ---- *)
 Definition alloc_event (e:event) : Prop := match e with EMmap _ _ _ | EMunmap _ _ => True | _ => False end.
 Definition in_reach (strict:bool) (a src:Z) : Prop := if strict then Z.abs (a - src) < RANGE else Z.abs (a - src) <= RANGE.
@@ -75,10 +63,10 @@ Definition in_reach (strict:bool) (a src:Z) : Prop := if strict then Z.abs (a - 
 Lemma remove1_head p l : remove1 p (p :: l) = l.
 Proof. destruct p as [a b]. cbn. rewrite !Z.eqb_refl. reflexivity. Qed.
 
-Lemma alloc_loop_spec strict k fuel : forall s start src size,
-  let '(s', r) := alloc_loop strict k fuel s start src size in
-  o_mem s' = o_mem s /\ incl (o_dirty s') (o_dirty s) /\
-  (exists t, o_trace s' = o_trace s ++ t /\ Forall alloc_event t /\
+Lemma alloc_loop_spec strict k fuel : forall s acc start src size,
+  let '(s', acc', r) := alloc_loop strict k fuel s acc start src size in
+  o_mem s' = o_mem s /\ o_trace s' = o_trace s /\ incl (o_dirty s') (o_dirty s) /\
+  (exists t, acc' = rev t ++ acc /\ Forall alloc_event t /\
              match r with AFound a => exists h, In (EMmap h size (Some a)) t | _ => True end) /\
   match r with
   | AFound a => in_reach strict a src /\ o_owned s' = (a,size) :: o_owned s
@@ -87,43 +75,45 @@ Lemma alloc_loop_spec strict k fuel : forall s start src size,
   | AOutOfFuel => True
   end.
 Proof.
-  induction fuel as [|fuel IH]; intros s start src size; cbn [alloc_loop].
-  - repeat split; auto using incl_refl. exists []. rewrite app_nil_r. auto.
+  induction fuel as [|fuel IH]; intros s acc start src size; cbn [alloc_loop].
+  - repeat split; auto using incl_refl. exists []. auto.
   - destruct (start <=? src + RANGE).
-    2:{ repeat split; auto using incl_refl. exists []. rewrite app_nil_r. auto. }
-    unfold do_mmap. destruct (k_mmap k (o_calls s) start size) as [a|] eqn:K.
+    2:{ repeat split; auto using incl_refl. exists []. auto. }
+    unfold mmap_core. destruct (k_mmap k (o_calls s) start size) as [a|] eqn:K.
     + destruct (if strict then Z.abs (a - src) <? RANGE else Z.abs (a - src) <=? RANGE) eqn:C.
       * cbn [o_mem o_dirty o_trace o_owned o_wr]. repeat split; auto using incl_refl.
         -- exists [EMmap start size (Some a)]. split; auto. split; [repeat constructor|]. exists start. left. reflexivity.
         -- unfold in_reach. destruct strict; [apply Z.ltb_lt|apply Z.leb_le]; auto.
         -- intros p Hp. apply in_or_app. auto.
-      * match goal with |- context[alloc_loop strict k fuel ?s1 ?st src size] => specialize (IH s1 st src size) end.
-        destruct (alloc_loop _ _ _ _ _ _ _) as [s' r]. destruct IH as (M & D & (t & T & Ft & It) & R).
-        cbn [do_munmap o_mem o_dirty o_trace o_owned] in *. repeat split; auto.
+      * match goal with |- context[alloc_loop strict k fuel ?s1 ?ac ?st src size] => specialize (IH s1 ac st src size) end.
+        destruct (alloc_loop _ _ _ _ _ _ _ _) as [[s' acc'] r]. destruct IH as (M & Tr & D & (t & T & Ft & It) & R).
+        cbn [munmap_core o_mem o_dirty o_trace o_owned] in *. repeat split; auto.
         -- intros x Hx. apply D in Hx. apply filter_In in Hx. tauto.
-        -- exists ([EMmap start size (Some a); EMunmap a size] ++ t). rewrite T, <- !app_assoc. split; auto.
+        -- exists ([EMmap start size (Some a); EMunmap a size] ++ t). rewrite T. split.
+           { rewrite rev_app_distr, <- app_assoc. reflexivity. }
            split; [repeat constructor; auto|]. destruct r; auto. destruct It as (h & Hh). exists h. apply in_or_app. auto.
         -- rewrite remove1_head in R. exact R.
-    + match goal with |- context[alloc_loop strict k fuel ?s1 ?st src size] => specialize (IH s1 st src size) end.
-      destruct (alloc_loop _ _ _ _ _ _ _) as [s' r]. destruct IH as (M & D & (t & T & Ft & It) & R).
+    + match goal with |- context[alloc_loop strict k fuel ?s1 ?ac ?st src size] => specialize (IH s1 ac st src size) end.
+      destruct (alloc_loop _ _ _ _ _ _ _ _) as [[s' acc'] r]. destruct IH as (M & Tr & D & (t & T & Ft & It) & R).
       cbn [o_mem o_dirty o_trace o_owned] in *. repeat split; auto.
-      exists ([EMmap start size None] ++ t). rewrite T, <- !app_assoc. split; auto.
+      exists ([EMmap start size None] ++ t). rewrite T. split.
+      { rewrite rev_app_distr, <- app_assoc. reflexivity. }
       split; [repeat constructor; auto|]. destruct r; auto. destruct It as (h & Hh). exists h. apply in_or_app. auto.
 Qed.
 
 (* the fuel is enough: never exhausted for a user-space source address *)
-Lemma alloc_loop_fuel strict k fuel : forall s start src size,
-  src + RANGE - start < Z.of_nat fuel * PAGE -> snd (alloc_loop strict k (S fuel) s start src size) <> AOutOfFuel.
+Lemma alloc_loop_fuel strict k fuel : forall s acc start src size,
+  src + RANGE - start < Z.of_nat fuel * PAGE -> snd (alloc_loop strict k (S fuel) s acc start src size) <> AOutOfFuel.
 Proof.
-  induction fuel as [|fuel IH]; intros s start src size Hf.
+  induction fuel as [|fuel IH]; intros s acc start src size Hf.
   - cbn [alloc_loop]. destruct (Z.leb_spec start (src + RANGE)); [unfold PAGE in *; lia|cbn; discriminate].
   - remember (S fuel) as f. cbn [alloc_loop]. subst f.
     destruct (Z.leb_spec start (src + RANGE)); [|cbn; discriminate].
     assert (Hf' : src + RANGE - (start + PAGE) < Z.of_nat fuel * PAGE) by (unfold PAGE in *; lia).
-    destruct (do_mmap k s start size) as [s1 [a|]]; [destruct (if strict then _ else _); [cbn; discriminate|]|]; apply IH; auto.
+    destruct (mmap_core k s start size) as [s1 [a|]]; [destruct (if strict then _ else _); [cbn; discriminate|]|]; apply IH; auto.
 Qed.
 Lemma alloc_jit_fuel strict k s src size : 0 <= src ->
-  snd (alloc_loop strict k ALLOC_FUEL s (Z.max 0 (src - RANGE)) src size) <> AOutOfFuel.
+  snd (alloc_loop strict k ALLOC_FUEL s [] (Z.max 0 (src - RANGE)) src size) <> AOutOfFuel.
 Proof. intros H. unfold ALLOC_FUEL.
   change (Z.to_nat (2 * RANGE / PAGE + 2)) with (S (Z.to_nat (2 * RANGE / PAGE + 1))).
   apply alloc_loop_fuel. rewrite Z2Nat.id by (cbv; discriminate).
@@ -133,19 +123,21 @@ Theorem alloc_jit_ok strict k s src size s' a : alloc_jit strict k s src size = 
   in_reach strict a src /\ o_owned s' = (a,size) :: o_owned s /\ o_mem s' = o_mem s /\ incl (o_dirty s') (o_dirty s)
   /\ (forall p, In p (pages a (Z.max size 1)) -> In p (o_wr s'))
   /\ (exists t, o_trace s' = o_trace s ++ t /\ Forall alloc_event t /\ exists h, In (EMmap h size (Some a)) t).
-Proof. unfold alloc_jit. pose proof (alloc_loop_spec strict k ALLOC_FUEL s (Z.max 0 (src - RANGE)) src size) as H.
-  destruct (alloc_loop _ _ _ _ _ _ _) as [s1 [b| |]]; intros E; try discriminate. injection E as <- <-.
-  destruct H as (M & D & T & R & O & P). auto 10. Qed.
+Proof. unfold alloc_jit. pose proof (alloc_loop_spec strict k ALLOC_FUEL s [] (Z.max 0 (src - RANGE)) src size) as H.
+  destruct (alloc_loop _ _ _ _ _ _ _ _) as [[s1 acc] [b| |]]; intros E; try discriminate. injection E as <- <-.
+  destruct H as (M & Tr & D & (t & T & Ft & It) & R & O & P). cbn [with_trace o_mem o_owned o_dirty o_wr o_trace].
+  rewrite rev_append_rev, T, !app_nil_r, rev_involutive. eauto 12. Qed.
 Theorem alloc_jit_panic strict k s src size s' p : 0 <= src -> alloc_jit strict k s src size = (s', RPanic p) ->
   p = PNoMemory /\ o_owned s' = o_owned s /\ o_mem s' = o_mem s /\ incl (o_dirty s') (o_dirty s)
   /\ (exists t, o_trace s' = o_trace s ++ t /\ Forall alloc_event t).
-Proof. intros Hs. unfold alloc_jit. pose proof (alloc_loop_spec strict k ALLOC_FUEL s (Z.max 0 (src - RANGE)) src size) as H.
+Proof. intros Hs. unfold alloc_jit. pose proof (alloc_loop_spec strict k ALLOC_FUEL s [] (Z.max 0 (src - RANGE)) src size) as H.
   pose proof (alloc_jit_fuel strict k s src size Hs) as F.
-  destruct (alloc_loop _ _ _ _ _ _ _) as [s1 [b| |]]; intros E; try discriminate; injection E as <- <-.
-  - destruct H as (M & D & (t & T & Ft & _) & O). eauto 10.
+  destruct (alloc_loop _ _ _ _ _ _ _ _) as [[s1 acc] [b| |]]; intros E; try discriminate; injection E as <- <-.
+  - destruct H as (M & Tr & D & (t & T & Ft & _) & O). cbn [with_trace o_mem o_owned o_dirty o_wr o_trace].
+    rewrite rev_append_rev, T, !app_nil_r, rev_involutive. eauto 10.
   - exfalso. apply F. reflexivity. Qed.
 Lemma alloc_jit_nofault strict k s src size : snd (alloc_jit strict k s src size) <> RFault.
-Proof. unfold alloc_jit. destruct (alloc_loop _ _ _ _ _ _ _) as [s1 [b| |]]; cbn; discriminate. Qed.
+Proof. unfold alloc_jit. destruct (alloc_loop _ _ _ _ _ _ _ _) as [[s1 acc] [b| |]]; cbn; discriminate. Qed.
 
 (* what the generic theorems need from an allocator *)
 Record alloc_wf (al:allocator) : Prop := {
@@ -164,7 +156,7 @@ Proof. constructor.
   - intros k s src size s' p Hs H. apply alloc_jit_panic in H; auto.
   - intros. apply alloc_jit_nofault. Qed.
 Lemma alloc_given_wf : alloc_wf alloc_given.
-Proof. constructor; unfold alloc_given, do_mmap.
+Proof. constructor; unfold alloc_given, do_mmap, mmap_core.
   - intros k s src size s' a. destruct (k_mmap _ _ _ _) as [b|]; intros H; [|discriminate]. injection H as <- <-.
     cbn. repeat split; auto using incl_refl.
     + intros p Hp. apply in_or_app; auto.
